@@ -5,9 +5,13 @@ SPEC = {
     "tests": [
         {"name": "TestScenarioExecution", "quick": 800, "thorough": 48000, "shards_quick": 16, "shards_thorough": 16, "timeout": 3000},
         {"name": "TestNextAcrossInstances", "quick": 320, "thorough": 24000, "shards_quick": 8, "shards_thorough": 16, "timeout": 3000},
+        {"name": "TestNextFirstTouchRace", "quick": 1600, "thorough": 64000, "shards_quick": 8, "shards_thorough": 16, "timeout": 3000,
+         "race_thorough": True},
         {"name": "TestKnownWitness", "quick": 1, "thorough": 1, "shards": 1, "timeout": 300},
     ],
-    "rule": ("rapid-generated scenario programs (internal/sceninterp.Program: every templated string is a list of literal parts and "
+    "rule": ("TestNextFirstTouchRace: 150 trials per case; in each a FRESH lib/mp iterator (what every scenario gets at provider "
+             "construction) is used by 2-8 goroutines released together, each evaluating 1-3 `source.<name>[next].id` paths 1-4 times "
+             "over 1-5 rows; per path the rows handed out must be exactly round-robin as a multiset. rapid-generated scenario programs (internal/sceninterp.Program: every templated string is a list of literal parts and "
              "references, so the oracle never parses a Go template): 1-3 csv / json / variables sources with 1-5 rows (header line, "
              "delimiter, wrapped json array, numeric cells, values with spaces/quotes/commas), 1-3 weighted scenarios (weights 1-6, "
              "min_waiting_time 0-5 ms) each starting with a request of its own, 0-3 shared requests; request lists with name, name(n), "
